@@ -22,6 +22,7 @@ import (
 	"sort"
 	"strconv"
 	"strings"
+	"sync"
 	"time"
 
 	. "github.com/pbenner/autodiff"
@@ -348,13 +349,15 @@ type jline struct {
 	Msg   string `json:"msg,omitempty"`
 }
 
-// term-child <cases> <from-id> <skip: comma separated routine/class> <journal>
+// term-child <cases> <from-id> <to-id> <skip: comma separated routine/class> <journal>
 func termChild(args []string) {
-	if len(args) < 4 {
-		vh.Fatal("usage: shapes term-child cases from skip journal")
+	if len(args) < 5 {
+		vh.Fatal("usage: shapes term-child cases from to skip journal")
 	}
 	cases := readTermCases(args[0])
 	from, _ := strconv.Atoi(args[1])
+	to, _ := strconv.Atoi(args[2])
+	args = args[1:]
 	skip := map[string]bool{}
 	for _, s := range strings.Split(args[2], ",") {
 		if s != "" {
@@ -376,7 +379,7 @@ func termChild(args []string) {
 	for _, c := range cases {
 		for _, cl := range c.Calls {
 			id++
-			if id < from {
+			if id < from || id >= to {
 				continue
 			}
 			if skip[cl.R+"/"+c.Class] || skip[cl.R+"/*"] {
@@ -421,58 +424,65 @@ type callInfo struct {
 	b  int
 }
 
-// term <cases> <trace> <results>
-func termParent(args []string) {
-	if len(args) < 3 {
-		vh.Fatal("usage: shapes term cases trace results")
+type tevent struct {
+	e     string
+	id    int
+	ticks int64
+}
+
+// shared bookkeeping of the partitions
+type termState struct {
+	mu              sync.Mutex
+	calls           []callInfo
+	out             *vh.Out
+	sigTimeouts     map[string]int
+	routineTimeouts map[string]int
+	skip            map[string]bool
+	outcomes        map[string]map[string]int
+	slowest         map[string]int64
+	nTimeouts       int
+	nSkipped        int
+	nExecuted       int
+	nFatal          int
+	children        int
+	maxPerSig       int
+	maxPerRoutine   int
+	maxTotal        int
+}
+
+func (st *termState) count(r, e string) {
+	if st.outcomes[r] == nil {
+		st.outcomes[r] = map[string]int{}
 	}
-	cases := readTermCases(args[0])
-	var calls []callInfo
-	for ci, c := range cases {
-		for _, cl := range c.Calls {
-			calls = append(calls, callInfo{c, ci, cl.R, cl.B})
-		}
+	st.outcomes[r][e]++
+}
+
+func (st *termState) skipList() string {
+	st.mu.Lock()
+	defer st.mu.Unlock()
+	skips := []string{}
+	for s := range st.skip {
+		skips = append(skips, s)
 	}
-	trace := vh.NewOut(args[1])
-	out := vh.NewOut(args[2])
-	self, err := os.Executable()
-	if err != nil {
-		vh.Fatal(err)
-	}
-	maxPerSig := vh.EnvInt("VERIF_TERM_MAX_PER_SIG", 2)
-	maxPerRoutine := vh.EnvInt("VERIF_TERM_MAX_PER_ROUTINE", 6)
-	maxTotal := vh.EnvInt("VERIF_TERM_MAX_TIMEOUTS", 16)
-	journal := args[2] + ".journal"
-	event := func(e string, id int, ticks int64) {
-		ci := calls[id]
-		trace.Put(vh.M{"e": e, "id": id, "r": ci.r, "class": ci.c.Class, "n": ci.c.N, "ticks": ticks})
-	}
-	sigTimeouts := map[string]int{}
-	routineTimeouts := map[string]int{}
-	skip := map[string]bool{}
-	outcomes := map[string]map[string]int{}
-	slowest := map[string]int64{}
-	count := func(r, e string) {
-		if outcomes[r] == nil {
-			outcomes[r] = map[string]int{}
-		}
-		outcomes[r][e]++
-	}
-	nTimeouts, nSkipped, nExecuted, nFatal, restarts := 0, 0, 0, 0, 0
-	from := 0
-	for from < len(calls) {
+	sort.Strings(skips)
+	return strings.Join(skips, ",")
+}
+
+// runPartition drives the calls lo..hi-1 in child processes and returns their events.
+func (st *termState) runPartition(self, casesPath, journal string, lo, hi int) []tevent {
+	var events []tevent
+	calls := st.calls
+	from := lo
+	for from < hi {
 		os.Remove(journal)
-		skips := []string{}
-		for s := range skip {
-			skips = append(skips, s)
-		}
-		sort.Strings(skips)
-		cmd := exec.Command(self, "term-child", args[0], strconv.Itoa(from), strings.Join(skips, ","), journal)
+		cmd := exec.Command(self, "term-child", casesPath, strconv.Itoa(from), strconv.Itoa(hi), st.skipList(), journal)
 		cmd.Stderr = os.Stderr
 		if e := cmd.Start(); e != nil {
 			vh.Fatal("cannot start child:", e)
 		}
-		restarts++
+		st.mu.Lock()
+		st.children++
+		st.mu.Unlock()
 		exited := make(chan error, 1)
 		go func() { exited <- cmd.Wait() }()
 		var jf *os.File
@@ -509,21 +519,25 @@ func termParent(args []string) {
 				switch l.E {
 				case "call":
 					open, openTs = l.ID, l.Ts
-					event("call", l.ID, 0)
+					events = append(events, tevent{"call", l.ID, 0})
 				case "return", "error", "panic":
 					if l.ID != open {
 						vh.Fatal("journal out of order")
 					}
-					event(l.E, l.ID, l.Ticks)
+					events = append(events, tevent{l.E, l.ID, l.Ticks})
 					r := calls[l.ID].r
-					count(r, l.E)
-					if l.Ticks > slowest[r] {
-						slowest[r] = l.Ticks
+					st.mu.Lock()
+					st.count(r, l.E)
+					if l.Ticks > st.slowest[r] {
+						st.slowest[r] = l.Ticks
 					}
-					nExecuted++
+					st.nExecuted++
+					st.mu.Unlock()
 					open, last = -1, l.ID
 				case "skip":
-					nSkipped++
+					st.mu.Lock()
+					st.nSkipped++
+					st.mu.Unlock()
 					last = l.ID
 				case "done":
 					finished = true
@@ -531,16 +545,14 @@ func termParent(args []string) {
 			}
 		}
 		for {
-			var exitErr error
 			hasExited := false
 			select {
-			case exitErr = <-exited:
+			case <-exited:
 				hasExited = true
 			case <-time.After(20 * time.Millisecond):
 			}
 			consume()
 			if hasExited {
-				_ = exitErr
 				break
 			}
 			if open >= 0 {
@@ -557,40 +569,39 @@ func termParent(args []string) {
 		if jf != nil {
 			jf.Close()
 		}
-		if finished && open < 0 {
-			break
-		}
 		if open >= 0 {
 			ci := calls[open]
+			ticks := time.Now().UnixNano()/1e6 - openTs
+			st.mu.Lock()
 			if killed {
 				// the watchdog had to kill the child inside this call
-				ticks := time.Now().UnixNano()/1e6 - openTs
-				event("timeout", open, ticks)
-				count(ci.r, "timeout")
-				nTimeouts++
+				events = append(events, tevent{"timeout", open, ticks})
+				st.count(ci.r, "timeout")
+				st.nTimeouts++
 				sig := ci.r + "/" + ci.c.Class
-				sigTimeouts[sig]++
-				routineTimeouts[ci.r]++
-				vh.Mismatch(out, vh.M{"engine": "term", "routine": ci.r, "class": ci.c.Class, "what": "timeout"},
+				st.sigTimeouts[sig]++
+				st.routineTimeouts[ci.r]++
+				vh.Mismatch(st.out, vh.M{"engine": "term", "routine": ci.r, "class": ci.c.Class, "what": "timeout"},
 					vh.M{"case": ci.c, "routine": ci.r, "budget_ticks": ci.b, "ticks": ticks, "id": open})
-				if sigTimeouts[sig] >= maxPerSig {
-					skip[sig] = true
+				if st.sigTimeouts[sig] >= st.maxPerSig {
+					st.skip[sig] = true
 				}
-				if routineTimeouts[ci.r] >= maxPerRoutine || nTimeouts >= maxTotal {
-					skip[ci.r+"/*"] = true
+				if st.routineTimeouts[ci.r] >= st.maxPerRoutine {
+					st.skip[ci.r+"/*"] = true
 				}
-				if nTimeouts >= maxTotal {
-					for r := range routineTimeouts {
-						skip[r+"/*"] = true
+				if st.nTimeouts >= st.maxTotal {
+					for r := range st.routineTimeouts {
+						st.skip[r+"/*"] = true
 					}
 				}
 			} else {
 				// the child died by itself inside the call: a fatal runtime error
 				// (stack overflow, out of memory) is a loud failure at the call
-				event("panic", open, time.Now().UnixNano()/1e6-openTs)
-				count(ci.r, "fatal")
-				nFatal++
+				events = append(events, tevent{"panic", open, ticks})
+				st.count(ci.r, "fatal")
+				st.nFatal++
 			}
+			st.mu.Unlock()
 			from = open + 1
 			continue
 		}
@@ -601,18 +612,66 @@ func termParent(args []string) {
 		break
 	}
 	os.Remove(journal)
+	return events
+}
+
+// term <cases> <trace> <results>
+func termParent(args []string) {
+	if len(args) < 3 {
+		vh.Fatal("usage: shapes term cases trace results")
+	}
+	cases := readTermCases(args[0])
+	var calls []callInfo
+	for ci, c := range cases {
+		for _, cl := range c.Calls {
+			calls = append(calls, callInfo{c, ci, cl.R, cl.B})
+		}
+	}
+	trace := vh.NewOut(args[1])
+	out := vh.NewOut(args[2])
+	self, err := os.Executable()
+	if err != nil {
+		vh.Fatal(err)
+	}
+	st := &termState{calls: calls, out: out, sigTimeouts: map[string]int{}, routineTimeouts: map[string]int{},
+		skip: map[string]bool{}, outcomes: map[string]map[string]int{}, slowest: map[string]int64{},
+		maxPerSig:     vh.EnvInt("VERIF_TERM_MAX_PER_SIG", 2),
+		maxPerRoutine: vh.EnvInt("VERIF_TERM_MAX_PER_ROUTINE", 6),
+		maxTotal:      vh.EnvInt("VERIF_TERM_MAX_TIMEOUTS", 16)}
+	// contiguous partitions, one child at a time per partition
+	np := vh.EnvInt("VERIF_TERM_PARTITIONS", 3)
+	if np > len(calls) {
+		np = 1
+	}
+	parts := make([][]tevent, np)
+	var wg sync.WaitGroup
+	for p := 0; p < np; p++ {
+		lo, hi := p*len(calls)/np, (p+1)*len(calls)/np
+		wg.Add(1)
+		go func(p, lo, hi int) {
+			defer wg.Done()
+			parts[p] = st.runPartition(self, args[0], fmt.Sprintf("%s.journal%d", args[2], p), lo, hi)
+		}(p, lo, hi)
+	}
+	wg.Wait()
+	for _, evs := range parts {
+		for _, ev := range evs {
+			ci := calls[ev.id]
+			trace.Put(vh.M{"e": ev.e, "id": ev.id, "r": ci.r, "class": ci.c.Class, "n": ci.c.N, "ticks": ev.ticks})
+		}
+	}
 	trace.Close()
 	sl := vh.M{}
-	for r, t := range slowest {
+	for r, t := range st.slowest {
 		sl[r] = t
 	}
 	skipped := []string{}
-	for s := range skip {
+	for s := range st.skip {
 		skipped = append(skipped, s)
 	}
 	sort.Strings(skipped)
-	vh.Summary(out, vh.M{"cases": len(cases), "calls": len(calls), "executed": nExecuted, "timeouts": nTimeouts,
-		"skipped_known": nSkipped, "fatal": nFatal, "children": restarts, "outcomes": outcomes, "slowest_ticks": sl,
-		"skipped_signatures": skipped})
+	vh.Summary(out, vh.M{"cases": len(cases), "calls": len(calls), "executed": st.nExecuted, "timeouts": st.nTimeouts,
+		"skipped_known": st.nSkipped, "fatal": st.nFatal, "children": st.children, "outcomes": st.outcomes, "slowest_ticks": sl,
+		"skipped_signatures": skipped, "partitions": np})
 	out.Close()
 }
